@@ -67,6 +67,81 @@ def _variant_job(args):
     return name, 'ran', sorted(fails_of(c))
 
 
+INVARIANCE = ('flip', 'notforms', 'demorgan', 'ifsplit', 'ifmerge',
+              'elsedrop', 'elseadd', 'rename', 'temps', 'extract',
+              'comp2loop', 'loop2comp', 'ternary', 'unternary', 'unaug')
+_TOUCHED = None
+
+
+def _invariance_job(args):
+    """Re-run the rule on the current tree with one behaviour-preserving
+    rewrite (tools/autorefactor.py) applied, in memory, to every module the
+    rule looked at: the verdict must not change."""
+    pid, repo, tname = args
+    import ast as _ast
+    import importlib.util
+    spec = importlib.util.spec_from_file_location(
+        'autorefactor', os.path.join(VERIF, 'tools', 'autorefactor.py'))
+    ar = importlib.util.module_from_spec(spec)
+    spec.loader.exec_module(ar)
+    overlay = {}
+    for rel in sorted(_TOUCHED or ()):
+        try:
+            with open(os.path.join(repo, rel), encoding='utf-8') as fh:
+                src = fh.read()
+            tree = _ast.parse(src)
+            before = _ast.dump(tree)
+            r = ar.T[tname](tree)
+            tree = r if isinstance(r, _ast.AST) else tree
+            _ast.fix_missing_locations(tree)
+            if _ast.dump(tree) == before:
+                continue
+            out = _ast.unparse(tree)
+            compile(out, rel, 'exec')
+            overlay[rel] = out + '\n'
+        except Exception as exc:
+            return tname, 'error', f'{rel}: {type(exc).__name__}: {exc}'
+    if not overlay:
+        return tname, 'ran', (0, [])
+    try:
+        idx = Index.with_overlay(_BASE_IDX, overlay)
+        c, _ = run_rule(pid, idx, 'quick')
+    except AnalysisError as exc:
+        return tname, 'ran', (len(overlay), [('ANALYSIS-ERROR', str(exc))])
+    except Exception as exc:
+        return tname, 'error', f'{type(exc).__name__}: {exc}'
+    return tname, 'ran', (len(overlay), sorted(fails_of(c)))
+
+
+def invariance(pid, repo, base, base_fails):
+    """-> (summary, problems)"""
+    global _TOUCHED
+    mods = {fq.split(':')[0] for fq in base.funcs_seen}
+    _TOUCHED = {m.path for m in _BASE_IDX.modules.values() if m.name in mods}
+    jobs = [(pid, repo, t) for t in INVARIANCE]
+    try:
+        import multiprocessing as mp
+        with mp.get_context('fork').Pool(min(15, len(jobs))) as pool:
+            results = pool.map(_invariance_job, jobs)
+    except Exception:
+        results = [_invariance_job(j) for j in jobs]
+    problems, detail = [], []
+    for tname, status, info in results:
+        if status == 'error':
+            problems.append(f'invariance {tname}: {info}')
+            continue
+        nfiles, fails = info
+        new = [x for x in fails if tuple(x) not in base_fails]
+        detail.append({'transform': tname, 'modules_rewritten': nfiles,
+                       'verdict_changed': bool(new)})
+        if new:
+            problems.append(
+                f'verdict not invariant under behaviour-preserving rewrite '
+                f'`{tname}` of {nfiles} module(s): {new[:2]}')
+    return {'modules': len(_TOUCHED), 'transforms': len(INVARIANCE),
+            'detail': detail}, problems
+
+
 def selftest(pid, repo, base_fails, mod):
     """Apply each registered variant in memory; broken ones must fire on the
     named rule, benign ones must stay silent."""
@@ -193,6 +268,16 @@ def main(argv=None):
                   f'{summary.get("fired", 0)} fired, '
                   f'{summary.get("benign_silent", 0)} benign silent, '
                   f'{summary.get("inapplicable", 0)} inapplicable')
+            inv, iproblems = invariance(pid, repo, c, fails_of(c))
+            c.note('invariance: ' + json.dumps(inv)[:3000])
+            if iproblems:
+                for p in iproblems:
+                    print(f'ANALYSIS-ERROR property={pid} {p}')
+                finish(c, meta, t0, seed)
+                return 2
+            print(f'{pid} invariance: verdict unchanged under '
+                  f'{inv["transforms"]} behaviour-preserving rewrites of the '
+                  f'{inv["modules"]} module(s) the rule reads')
         return finish(c, meta, t0, seed)
     except AnalysisError as exc:
         print(f'ANALYSIS-ERROR property={pid}: {exc}')
